@@ -29,8 +29,12 @@ Flat(ss) == FoldLeft(LAMBDA acc, x : acc \o x, <<>>, ss)
 IsPermOf(s, n) == Len(s) = n /\ SeqSet(s) = 1..n
 
 \* ---- clauses that concern one projection alone (no expectation needed) -------------------------
-ObsClauses(w, c, o, S, orbits) ==
-  LET st == [m \in DOMAIN o.states |-> PSOf(o.states[m])]
+\* (TLC re-evaluates operator arguments at every use: bind them once with LET)
+ObsClauses(w, c, oArg, SArg, orbitsArg) ==
+  LET o == oArg
+      S == SArg
+      orbits == orbitsArg
+      st == [m \in DOMAIN o.states |-> PSOf(o.states[m])]
       pos(p) == IF p \in S THEN CHOOSE m \in DOMAIN st : st[m] = p ELSE 0      \* 0 = "None"
       wellformed == /\ \A m \in DOMAIN st : IsPS(w, c, st[m])
                     /\ o.nstates = Len(st) /\ o.nstars = Len(o.stars) /\ Len(o.index) = Len(st)
@@ -65,8 +69,9 @@ Mismatch(o, S, d, D) ==
        THEN (IF ~(D \subseteq S) THEN "states_missing_reachable" ELSE "states_beyond_reachable")
        ELSE (IF ~(D \subseteq S) THEN "diff_misses_endpoint_difference" ELSE "diff_has_other_states")
 
-Eval(kk, c) ==
-  LET w == c.w
+Eval(kk, cArg) ==
+  LET c == cArg
+      w == c.w
       cc == c.c
       G == OpsRT(w, 2)
       J == UNION {SeqSet(c.jn[m]) : m \in DOMAIN c.jn}
@@ -76,7 +81,9 @@ Eval(kk, c) ==
       orb == [m \in DOMAIN c.sets |-> OrbitPartition(w, cc, G, sets[m])]
       \* descriptors whose denotation is the m-th observed set
       match == [m \in DOMAIN c.sets |-> {d \in DOMAIN c.descs : sets[m] = den[d]}]
-      okfor(oi, d) == c.obs[oi].n = c.descs[d].n /\ d \in match[c.obs[oi].set]
+      \* descriptors that the oi-th projection denotes (range attribute and state set)
+      ok == [oi \in DOMAIN c.obs |-> {d \in match[c.obs[oi].set] : c.obs[oi].n = c.descs[d].n}]
+      edges == c.edges
       model == <<
         <<"jump_network_symmetric", NetworkOK(w, cc, G, J)>>,
         <<"reach_definitions_agree", \A n \in 0..c.maxn : T[n] = ReachAvoid(J, n)>>,
@@ -88,10 +95,10 @@ Eval(kk, c) ==
   /\ \A oi \in DOMAIN c.obs :
        LET cl == ObsClauses(w, cc, c.obs[oi], sets[c.obs[oi].set], orb[c.obs[oi].set]) IN
          \A j \in DOMAIN cl : cl[j][2] \/ PrintT(<<"FAIL", kk, <<"obs", oi, cl[j][1]>>>>)
-  /\ \A e \in DOMAIN c.edges :
-       LET ed == c.edges[e] IN
+  /\ \A e \in DOMAIN edges :
+       LET ed == edges[e] IN
          /\ (ed.must = ed.raised) \/ PrintT(<<"FAIL", kk, <<"edge", e, 0, IF ed.must THEN "must_raise" ELSE "must_not_raise">>>>)
-         /\ \/ \E a \in DOMAIN ed.cands : \A s \in DOMAIN ed.slots : okfor(ed.slots[s], ed.cands[a][s])
+         /\ \/ \E a \in DOMAIN ed.cands : \A s \in DOMAIN ed.slots : ed.cands[a][s] \in ok[ed.slots[s]]
             \/ \A s \in DOMAIN ed.slots :
                   LET oi == ed.slots[s]  d == ed.cands[1][s]
                       why == Mismatch(c.obs[oi], sets[c.obs[oi].set], c.descs[d], den[d])
